@@ -6,10 +6,11 @@ props = [json.loads(l) for l in open(os.path.join(V, 'properties.jsonl'))]
 hook_commits = subprocess.run(['git', '-C', '/repo', 'log', '--format=%h %s'], capture_output=True, text=True).stdout.splitlines()
 hooks = [l.split()[0] for l in hook_commits if l.split(' ', 1)[1].startswith('verif:')]
 
-TUN = 'model checking (TLC) of an implementation-shaped TLA+ specification + trace validation of the real client against TLA+ property observers'
+TUN = ('model checking (TLC, complete in the quick configurations) of an implementation-shaped TLA+ specification + trace validation of the real client against '
+       'TLA+ property observers + event-by-event replay conformance of TLC-generated behaviours (advisory SPEC-DRIFT)')
 CLAIMED = {
  'C03': dict(tech=TUN + '; schedules from TLC simulation of Tunnel.tla, seeded walks (virtual time, synctest) and multi-sender runs in scaled real time',
-   text='Tunnel.tla (sender, ack relays, sequence mutex as FIFO queue, reconnect) is model-checked exhaustively in small configurations (OneInFlight, MutexHeld, BusNoDup) and simulated against the TunObs observers; every behaviour projected onto environment choices, plus seeded fault walks incl. the 255->0 wrap, TCP mode and 2..8 concurrent senders, is executed on the real knx.Tunnel over an in-memory socket and each recorded trace is judged by TLC with the C03 clauses (OneInFlight, RetxIdentical, RetxPeriod, AckedConsecutive, SuccessNeedsAck, ErrAckFails, ReturnDeadline, TcpOneShot). Bounded exploration, not a proof.',
+   text='Tunnel.tla (sender, ack relays, sequence mutex as FIFO queue, reconnect) is model-checked exhaustively in small configurations incl. the sequence wrap (OneInFlight, MutexHeld, BusNoDup) and simulated against the TunObs observers; every behaviour projected onto environment choices, plus seeded fault walks incl. the 255->0 wrap, TCP mode and 2..8 concurrent senders, is executed on the real knx.Tunnel over an in-memory socket and each recorded trace is judged by TLC with the C03 clauses (OneInFlight, RetxIdentical, RetxPeriod, AckedConsecutive, SuccessNeedsAck, ErrAckFails, ReturnDeadline, TcpOneShot). Bounded exploration, not a proof.',
    note='trusted: the Go simulation of socket/network/gateway (its events are part of the judged trace), the event recorder linearization (In recorded atomically with the hand-off, Out inside the socket Send), TLC. Multi-sender contention only in real time (lower time bounds exact, upper bounds lenient).'),
  'C04': dict(tech=TUN, text='Receiver clauses (DeliverIff, AckExact/AckMissing/AckSpurious, NoDupDelivery, NothingLost, TCP variant) judged by TLC on traces of the real client for adversarial request streams (own/foreign channel, seq -2..+3 and +128, up to 1000 requests across the wrap, reader stalls, reconnects), plus TLC-generated behaviours with forged requests (AdvReq).',
    note='same trusted base as C03; "accepted" is observed at the socket hand-off (In event), delivery at the application receive.'),
@@ -18,12 +19,12 @@ CLAIMED = {
  'C09': dict(tech=TUN, text='Heartbeat period/channel/resend, failure => reconnect, DiscReq handling, epoch freshness (channel and both numberings), termination causes and inertness of foreign-channel frames, judged exactly in virtual time on seeded gateway-fault walks and TLC-generated behaviours (GwFaultBudget: silence, error status, foreign channel, busy/refused connects).',
    note='with several overlapping heartbeat workers (H < T) the reconnect-cause clause is lenient; see DESIGN.md.'),
  'C10': dict(tech=TUN + '; goroutine leaks via synctest deadlock detection and census; race detector on the same schedules in the thorough tier',
-   text='Close injected at a random position of every scenario family (sender, receiver, link, heartbeat), 1..4 concurrent closers, socket failures, slow DiscReq writes: CloseBounded, OneDisc, InboundClosedAfterClose, SendAfterCloseFails, NoLeak, NoPanic (a crashed driver run becomes a Crash event), NoRace (thorough).',
+   text='Close injected at a random position of every scenario family (sender, receiver, link, heartbeat), 1..4 concurrent closers, socket failures, slow DiscReq writes: CloseBounded, OneDisc, InboundClosedAfterClose, SendAfterCloseFails, NoLeak, NoPanic (a crashed driver run becomes a Crash event), NoRace (thorough; reports classified, known finding C10-F1 = the close/send pattern on the helper channels).',
    note='the data-race clause is decided by the Go race detector, not by TLC; real-socket receiver goroutine leak is out of reach of the in-memory socket.'),
- 'C13': dict(tech='model checking (TLC) of Router.tla + trace validation of the real router client against the RouterObs observers (scaled real time)',
+ 'C13': dict(tech='model checking (TLC) of Router.tla + trace validation of the real router client against the RouterObs observers (scaled real time) + replay conformance of TLC-generated behaviours',
    text='Pace (exact lower bound between successful transmissions), BusyWindow (no transmission inside the back-off window measured from the busy-locked trace point), BusyWait (announced wait, cap, control), BusyTaken, Resumes; OnePerWaiter is checked on the FIFO model and reported as drift on real traces.',
    note='real time: 300 us slack on lower bounds; needs the build-tag trace points busy-wait/busy-locked.'),
- 'C14': dict(tech='model checking (TLC) of Router.tla + trace validation of the real router client against the RouterObs observers (scaled real time)',
+ 'C14': dict(tech='model checking (TLC) of Router.tla + trace validation of the real router client against the RouterObs observers (scaled real time) + replay conformance of TLC-generated behaviours',
    text='ResendSpurious/ResendOrder/ResendMissing against the observer-reconstructed bounded history (lost counts 0..65535, retain 0..64, failing sends), DeliveredOnce, CloseClosesInbound, Resumes (no deadlock).',
    note='needs the lost-locked trace point; real time.'),
  'C17': dict(tech=TUN + ' (tunnel in virtual time, router in real time)',
@@ -56,9 +57,9 @@ CLAIMED.update({
    note='known finding C19-F1: the name "14.1200".'),
 })
 CLAIMED.update({
- 'C16': dict(tech='model checking (TLC) of Sock.tla (every segmentation, incl. liveness) + TLA+ judgement of records from real loopback sockets', text='Real DialTunnelUDP / DialTunnelTCP sockets against scripted loopback peers: streams of 1..50 frames of every service type (8 bytes .. 60 KiB), every single cut position, 1-byte dribble and seeded coalescing on TCP; datagram sizes around and beyond 1 KiB on UDP; 1/2/8 concurrent senders; Close with unread frames pending, peer close; NewTunnel with SendLocalAddress on/off x UDP/TCP. TLC judges InOrderOnce, SendAtomic, ClosedAfter (Inbound closed and receiver goroutine gone), HpaiAdvertised.',
+ 'C16': dict(tech='model checking (TLC) of Sock.tla (every segmentation, incl. liveness) + inductive invariant of SockInd.tla by Apalache (all streams up to 6 frames x 64 bytes) + TLA+ judgement of records from real loopback sockets', text='Real DialTunnelUDP / DialTunnelTCP sockets against scripted loopback peers: streams of 1..50 frames of every service type (8 bytes .. 60 KiB), every single cut position, 1-byte dribble and seeded coalescing on TCP; datagram sizes around and beyond 1 KiB on UDP; 1/2/8 concurrent senders; Close with unread frames pending, peer close; NewTunnel with SendLocalAddress on/off x UDP/TCP. TLC judges InOrderOnce, SendAtomic, ClosedAfter (Inbound closed and receiver goroutine gone), HpaiAdvertised.',
    note='kernel TCP coalescing cannot be forced; goroutine census by runtime.Stack.'),
- 'C20': dict(tech='model checking (TLC) of Lookup.tla + TLA+ judgement of records from real loopback / multicast sockets', text='DescribeTunnel and Discover against scripted responders (immediate, late, never, repeated, other services / malformed frames first, floods, 0..21 responders) for timeouts 1..60 ms (thorough: ..500 ms): FirstMatch / AllMatches with the deadline-ambiguity rule, ReturnBound, OneRequest, DescribeHpai, SocketReleased.',
+ 'C20': dict(tech='model checking (TLC) of Lookup.tla + exhaustive replay: every behaviour of Lookup.tla enumerated by TLC (arrival script -> allowed results) replayed on the real calls + TLA+ judgement of records from real loopback / multicast sockets', text='DescribeTunnel and Discover against scripted responders (immediate, late, never, repeated, other services / malformed frames first, floods, 0..21 responders) for timeouts 1..60 ms (thorough: ..500 ms): FirstMatch / AllMatches with the deadline-ambiguity rule, ReturnBound, OneRequest, DescribeHpai, SocketReleased, ResponseIntact; answer bodies under 28 other service types; and the replay table TLC enumerates from Lookup.tla (quick: 80 of 416 scripts, thorough: all 3,440), where the returned result must be one the specification allows.',
    note='wall-clock bounds carry 25 ms slack; multicast needs a usable interface (else the discovery half is skipped, not failed).'),
 })
 NA = {}
